@@ -410,6 +410,21 @@ def run(ctx):
                 except Exception as ex:
                     ctx.violation("C16/BlockErrorRate/forward/multi-dim", "BLER on shape %s with block_size %d (a divisor of the %d elements per item) raised %s: %s" % (shape, B, per, type(ex).__name__, str(ex)[:80]), {"shape": list(shape), "B": B})
                     break
+                # the same tensors held as permuted views (non-contiguous strides): the same rates
+                if shape[0] > 1 and shape[1] > 1:
+                    xv_, yv_ = x.transpose(0, 1).contiguous().transpose(0, 1), y.transpose(0, 1).contiguous().transpose(0, 1)
+                    try:
+                        blv = float(blermod.BlockErrorRate(block_size=B)(xv_, yv_))
+                        bev = float(BitErrorRate()(xv_, yv_))
+                        msv = blermod.BlockErrorRate(block_size=B)
+                        msv.update(xv_, yv_)
+                        ctx.count("view-cases")
+                        if abs(blv - bl) > 1e-6 or abs(bev - nerr / x.numel()) > 1e-6 or abs(float(msv.compute()) - bl) > 1e-6:
+                            ctx.violation("C16/BlockErrorRate/forward/view", "shape %s held with strides %s, block_size %d: BLER %r (streaming %r), BER %r; on the same values held contiguously BLER %r, BER %r" % (
+                                shape, tuple(xv_.stride()), B, blv, float(msv.compute()), bev, bl, nerr / x.numel()), {"shape": list(shape), "B": B})
+                            break
+                    except Exception:
+                        ctx.count("views-rejected")
                 if len(md_exprs) < (40 if quick else 400):
                     it_x, it_y = x.reshape(shape[0], -1, shape[-1]).tolist(), y.reshape(shape[0], -1, shape[-1]).tolist()
                     md_exprs.append("bler_multidim %s [%s]" % (cnat(B), "; ".join("[" + "; ".join(cpairs(rx, ry) for rx, ry in zip(ix, iy)) + "]" for ix, iy in zip(it_x, it_y))))
